@@ -31,14 +31,15 @@ func init() {
 		Explanation: "Decides, on the type-checked SSA of every module implementation of go-orbit-db's StoreIndex.UpdateIndex that walks log entries: " +
 			"(D1) the entry sequence the index loop walks is the log's deterministic clock-sorted traversal (Log.Values() of the log being indexed, possibly through Slice/Copy/Reverse or a module helper), not the insertion-ordered entry map (GetEntries/RawHeads: Join inserts a replicated batch heads-first, so the order depends on how the entries arrived), not the heads alone and not only the newly added entries; " +
 			"(D2) the loop visits every element of that sequence (start, bound, stride 1) and its direction agrees with the winner policy of the handlers: handlers that keep the first event seen about a subject need a newest-first walk, handlers that overwrite need an oldest-first walk, and all per-subject fields must use the same policy; " +
-			"(D3) re-index idempotence: every field of the index struct written by a handler or post-index action is either assigned a fresh value in UpdateIndex before the loop (or cleared after it on every success path), or is written only in ways that repeat harmlessly: inserts into maps whose key type has value semantics (a key of pointer type, or of an interface type whose implementations are pointers, has identity semantics and a re-decoded key is a new member each time), accumulating writes (append to / arithmetic on the field's own content) only under a dominating 'already present' test on a never-reset value-keyed set the same code inserts into, and no keep-the-first-value register fed by several write sites (or a scalar one) without reset; " +
+			"(D3) re-index idempotence: every field of the index struct written by a handler or post-index action is either assigned a fresh value in UpdateIndex before the loop (or cleared after it on every success path), or is written only in ways that repeat harmlessly: inserts into maps whose key type has value semantics (a key of pointer type, or of an interface type whose implementations are pointers, has identity semantics and a re-decoded key is a new member each time), accumulating writes (append to / arithmetic on the field's own content) only under a dominating 'already present' test on a never-reset value-keyed set the same code inserts into, no keep-the-first-value register fed by several write sites (or a scalar one) without reset, and an 'already there' test protecting an insert into never-reset state must be the presence test of the very key the protected code records in the tested set (a test of the set's size, of nil-ness or of another key makes the kept subject depend on what this index instance saw first); " +
 			"(D4) every access to such a state field, anywhere in the module, happens with the index's own mutex held (write-held for writes), counting the lock held by UpdateIndex around the handler and post-action callbacks, except on an index object that the accessing function has just allocated; " +
 			"(D5) per state field that is reset before the loop, the handler writes of event-dependent values are either all dominated by an 'absent / nil / empty' test of index state (first event seen wins) or none is (last wins); " +
-			"(D6) if the loop lets entries bypass the handlers because they are found in a 'seen before' set of the index, that set is reset before the loop whenever some handler-written field is (only the shape where the membership test alone decides the skip is judged). " +
+			"(D6) if the loop lets entries bypass the handlers because they are found in a 'seen before' set of the index, that set is reset before the loop whenever some handler-written field is (only the shape where the membership test alone decides the skip is judged); " +
+			"(D7) the snapshot of the log that UpdateIndex walks (the Values()/GetEntries() call, or the call of the helper that makes it) is taken with the index mutex write-held and the mutex is not released between the snapshot and the walk: go-orbit-db does not serialise UpdateIndex calls, and a snapshot taken outside the lock lets the call that read the older log write the state last. " +
 			"Not decided: convergence of go-ipfs-log itself (tie-break of concurrent entries, what Load/Join put into the log), equality of the log before and after reopen, that a handler stores the right value for its event type (C07), values written through state that escapes into callees outside the handlers, that a never-reset keep-first set with a single write site (devices by device key) receives the same value from every event about one key, and that skipping entries inside the loop body (continue on undecodable entries) is harmless.",
 		Trusted:     []string{"golang.org/x/tools go/packages+go/ssa (v0.29.0)", "go-ipfs-log: Log.Values() is the deterministic clock-sorted traversal (oldest first), GetEntries()/RawHeads() are insertion-ordered, OrderedMap.Reverse/Slice/Copy keep or reverse that order", "slices.Reverse reverses in place", "sync.RWMutex semantics; lock identity by owner type + field"},
-		Assumptions: []string{"go-orbit-db calls UpdateIndex with the store's whole oplog after every local append, replication batch and load", "one mutex per index object (lock identity is the class owner type + field)"},
-		Floors:      map[string]int{"D1": 1, "D2": 2, "D3": 12, "D4": 25, "D5": 5, "D6": 1},
+		Assumptions: []string{"go-orbit-db calls UpdateIndex with the store's whole oplog after every local append, replication batch and load", "go-orbit-db does not serialise its UpdateIndex calls (local append vs replication/load may overlap)", "one mutex per index object (lock identity is the class owner type + field)"},
+		Floors:      map[string]int{"D1": 1, "D2": 2, "D3": 12, "D4": 25, "D5": 5, "D6": 1, "D7": 1},
 		Run:         runC04,
 	})
 }
@@ -349,8 +350,9 @@ func c04Declared(w *World, f *ssa.Function) *ssa.Function {
 // order source
 
 type c04Src struct {
-	Kind  string // values | arrival | heads | new-entries | unknown
-	What  string // method / description
+	Site  ssa.Instruction // the instruction of UpdateIndex at which the sequence is obtained
+	Kind  string          // values | arrival | heads | new-entries | unknown
+	What  string          // method / description
 	Flips int
 	LogOK bool
 	Pos   token.Pos
@@ -361,6 +363,7 @@ type c04Tracer struct {
 	inplace int      // in-place reversals of the traced slice inside UpdateIndex
 	unknown []string // things done to the slice that are not modelled
 	seenUse map[ssa.Value]bool
+	site    ssa.Instruction // the call of UpdateIndex through which a helper's result is traced
 }
 
 // scanUses looks at what else is done with a traced slice value inside UpdateIndex.
@@ -537,7 +540,10 @@ func (t *c04Tracer) traceCall(call *ssa.Call, idx int, env map[*ssa.Parameter]ss
 			if p, ok := lv.(*ssa.Parameter); ok && p.Parent() == t.ix.Update && len(t.ix.Update.Params) > 1 && t.ix.Update.Params[1] == p {
 				logOK = true
 			}
-			s := c04Src{What: "Log." + cc.Method.Name() + "()", Flips: flips, LogOK: logOK, Pos: call.Pos()}
+			s := c04Src{What: "Log." + cc.Method.Name() + "()", Flips: flips, LogOK: logOK, Pos: call.Pos(), Site: t.site}
+			if call.Parent() == t.ix.Update {
+				s.Site = call
+			}
 			switch cc.Method.Name() {
 			case "Values":
 				s.Kind = "values"
@@ -557,6 +563,9 @@ func (t *c04Tracer) traceCall(call *ssa.Call, idx int, env map[*ssa.Parameter]ss
 	if cal := staticCallee(cc); cal != nil && inModule(cal) {
 		if o := cal.Origin(); o != nil && cal.Blocks == nil {
 			cal = o
+		}
+		if call.Parent() == t.ix.Update {
+			t.site = call
 		}
 		if cal.Blocks != nil && depth < 6 {
 			// resolve the callee's parameters to the caller's values
@@ -843,6 +852,8 @@ func c04AnalyseWalk(ia *ssa.IndexAddr, loop *c04Loop) c04Walk {
 type c04GuardEdge struct {
 	E     edge
 	Field int
+	Kind  string    // lookup (presence of one key) | helper (presence helper) | nil | len
+	Key   ssa.Value // key of the lookup
 }
 
 func (ix *c04Index) guardEdges(fn *ssa.Function) []c04GuardEdge {
@@ -850,9 +861,10 @@ func (ix *c04Index) guardEdges(fn *ssa.Function) []c04GuardEdge {
 		return g
 	}
 	var out []c04GuardEdge
+	kind, key := "", ssa.Value(nil)
 	add := func(es []edge, f int) {
 		for _, e := range es {
-			out = append(out, c04GuardEdge{e, f})
+			out = append(out, c04GuardEdge{E: e, Field: f, Kind: kind, Key: key})
 		}
 	}
 	for _, b := range fn.Blocks {
@@ -866,6 +878,7 @@ func (ix *c04Index) guardEdges(fn *ssa.Function) []c04GuardEdge {
 				if !ok {
 					continue
 				}
+				kind, key = "lookup", x.Index
 				for _, okv := range extractsOf(x, 1) {
 					add(edgesOfVerdict(okv).Reject, f)
 				}
@@ -882,10 +895,12 @@ func (ix *c04Index) guardEdges(fn *ssa.Function) []c04GuardEdge {
 				if !ok {
 					continue
 				}
+				kind, key = "nil", nil
 				add(edgesOfVerdict(x).Accept, f) // the == nil side
 			case *ssa.Call:
 				if cal := staticCallee(x.Common()); cal != nil && inModule(cal) {
 					if f, presentOnTrue, ok := ix.presenceSummary(cal); ok {
+						kind, key = "helper", nil
 						ve := edgesOfVerdict(x)
 						if presentOnTrue {
 							add(ve.Reject, f)
@@ -903,6 +918,15 @@ func (ix *c04Index) guardEdges(fn *ssa.Function) []c04GuardEdge {
 				if !ok {
 					// also len of a value looked up from the state (comma-ok value)
 					continue
+				}
+				kind, key = "len", nil
+				// the length of a value just looked up under one key says something about that key
+				if ex, isEx := x.Call.Args[0].(*ssa.Extract); isEx {
+					if l, isL := ex.Tuple.(*ssa.Lookup); isL {
+						kind, key = "lookup", l.Index
+					}
+				} else if l, isL := x.Call.Args[0].(*ssa.Lookup); isL {
+					kind, key = "lookup", l.Index
 				}
 				for _, r := range *x.Referrers() {
 					cmp, ok := r.(*ssa.BinOp)
@@ -981,6 +1005,72 @@ func (ix *c04Index) guardPaths(in ssa.Instruction, depth int, busy map[*ssa.Func
 		res.Unguarded = []string{here}
 	}
 	return res
+}
+
+// c04SameKey: two map keys denote the same value: the same SSA value, or the same access
+// path from a parameter (string(e.DevicePk) computed twice). unknown when neither is decided.
+func c04SameKey(a, b ssa.Value) (same, known bool) {
+	if a == nil || b == nil {
+		return false, false
+	}
+	if a == b {
+		return true, true
+	}
+	pa, oka := accessPath(a)
+	pb, okb := accessPath(b)
+	if oka && okb {
+		return pa == pb, true
+	}
+	return false, false
+}
+
+// subjectGuard: for a write to a map of never-reset state that is protected by tests of
+// never-reset state, one of those tests must be the presence test of the very key that the
+// protected code records (in the tested set), otherwise "already there" does not mean "this
+// subject was indexed before". Returns "" when fine or not applicable.
+func (ix *c04Index) subjectGuard(wr *c04Write, reset map[int]string) string {
+	fn := wr.Fn
+	var doms []c04GuardEdge
+	for _, g := range ix.guardEdges(fn) {
+		if reset[g.Field] == "" && edgeDominates(g.E, wr.Instr.Block()) {
+			doms = append(doms, g)
+		}
+	}
+	if len(doms) == 0 {
+		return ""
+	}
+	var whys []string
+	for _, g := range doms {
+		switch g.Kind {
+		case "helper":
+			return ""
+		case "lookup":
+			// an insert into the tested set, under this guard, with the tested key
+			decided := true
+			for _, w2 := range ix.writes {
+				if w2.Fn != fn || w2.Kind != "mapupdate" || w2.Field != g.Field || !edgeDominates(g.E, w2.Instr.Block()) {
+					continue
+				}
+				same, known := c04SameKey(g.Key, w2.Key)
+				if same {
+					return ""
+				}
+				if !known {
+					decided = false
+				}
+			}
+			if !decided {
+				return ""
+			}
+			whys = append(whys, "the presence test on "+ix.fieldName(g.Field)+" uses a key that the protected code never records in "+ix.fieldName(g.Field))
+		case "len":
+			whys = append(whys, "the test is on the size of "+ix.fieldName(g.Field)+", not on the presence of the key written")
+		case "nil":
+			whys = append(whys, "the test is on "+ix.fieldName(g.Field)+" being nil, not on the presence of the key written")
+		}
+	}
+	sort.Strings(whys)
+	return strings.Join(whys, "; ")
 }
 
 // presenceSummary: fn returns exactly the comma-ok flag of a lookup in index state (or its
@@ -1504,6 +1594,7 @@ func (ix *c04Index) run() bool {
 	ix.ruleD3()
 	ix.ruleD4()
 	ix.ruleD6()
+	ix.ruleD7()
 	return true
 }
 
@@ -1786,6 +1877,12 @@ func (ix *c04Index) ruleD3() {
 					continue
 				}
 			}
+			if wr.Kind == "mapupdate" && reset[f] == "" && (wr.Guarded || wr.Partly) {
+				if why := ix.subjectGuard(wr, reset); why != "" {
+					flag(wr, "the field is never reset and this insert is protected by an 'already there' test that is not about the subject being recorded (%s): what is kept depends on which entries this index instance happened to see first, so replicas holding the same entries disagree", why)
+					continue
+				}
+			}
 			if wr.Accum {
 				switch {
 				case reset[f] == "epilogue":
@@ -1818,7 +1915,7 @@ func (ix *c04Index) ruleD3() {
 			flag(keepFirstW, "the field is never reset, yet %d write site(s) keep the first value ever stored (guarded by a test of the field itself): after the first index run a newer event can no longer win, and a replica that indexes the whole log at once disagrees with one that indexed it step by step", keepFirst)
 		}
 		if len(bad) > 0 {
-			c.fail("D3", construct, badPos, "not idempotent under re-index: %s", strings.Join(bad, " | "))
+			c.fail("D3", construct, badPos, "not determined by the entry set under re-index: %s", strings.Join(bad, " | "))
 			continue
 		}
 		how := "written only by idempotent operations (inserts on value-typed keys, guarded accumulation, plain overwrites)"
@@ -2153,5 +2250,81 @@ func (ix *c04Index) ruleD6() {
 	}
 	if n == 0 {
 		c.ok("D6", fnName(upd)+"+no-skip", upd.Pos(), "no entry is skipped on the strength of a membership test of index state")
+	}
+}
+
+// ---------------------------------------------------------------------------
+// D7: the snapshot of the log that UpdateIndex walks is taken while the index write lock is
+// held and the lock is not released between the snapshot and the walk. go-orbit-db does not
+// serialise its calls of UpdateIndex (a local append and a replication batch / load can
+// overlap); with the snapshot taken outside the lock the call that read the OLDER log can be
+// the one that writes the state last.
+
+func (ix *c04Index) ruleD7() {
+	c := ix.c
+	upd := ix.Update
+	classes := ix.lockClasses()
+	if len(classes) == 0 {
+		return // reported by D4
+	}
+	srcs, _ := ix.sources()
+	local := ix.w.locks().localOf(upd)
+	held := func(in ssa.Instruction) bool {
+		for _, cl := range classes {
+			if local[in].holds(cl, 'W') {
+				return true
+			}
+		}
+		return false
+	}
+	seen := map[ssa.Instruction]bool{}
+	n := 0
+	for _, s := range srcs {
+		if s.Site == nil || seen[s.Site] || (s.Kind != "values" && s.Kind != "arrival" && s.Kind != "heads") {
+			continue
+		}
+		seen[s.Site] = true
+		n++
+		construct := fnName(upd) + "+snapshot-under-lock+" + s.What
+		pos := posOf(s.Site)
+		if !held(s.Site) {
+			c.fail("D7", construct, pos, "the entry sequence (%s) is read before %s is write-held: two overlapping UpdateIndex calls (local append and replication/load are not serialised by go-orbit-db) can take their snapshots in one order and write the state in the other, leaving the state of an OLDER log than the store holds", s.What, strings.Join(classes, "/"))
+			continue
+		}
+		if !held(ix.entryIA) {
+			c.fail("D7", construct, ix.entryIA.Pos(), "the entry sequence (%s) is read with %s write-held but the walk over it is not", s.What, strings.Join(classes, "/"))
+			continue
+		}
+		// a release between the snapshot and the walk
+		released := ""
+		for _, b := range upd.Blocks {
+			for _, in := range b.Instrs {
+				ci, ok := in.(ssa.CallInstruction)
+				if !ok {
+					continue
+				}
+				op, ok := lockOpOf(ci)
+				if !ok || op.Acquire || op.Deferred || op.Mode != 'W' {
+					continue
+				}
+				mine := false
+				for _, cl := range classes {
+					if op.Class == cl {
+						mine = true
+					}
+				}
+				if mine && instrReaches(s.Site, in) && instrReaches(in, ix.entryIA) && !ix.entryLoop.Body[b] {
+					released = c.pos(posOf(in))
+				}
+			}
+		}
+		if released != "" {
+			c.fail("D7", construct, pos, "%s is released at %s between reading the entry sequence (%s) and walking it: another UpdateIndex can index a newer log in between and be overwritten", strings.Join(classes, "/"), released, s.What)
+			continue
+		}
+		c.ok("D7", construct, pos, "the entry sequence (%s) is read with %s write-held and the lock is kept until the walk: the last UpdateIndex to finish indexed a log at least as new as any earlier one", s.What, strings.Join(classes, "/"))
+	}
+	if n == 0 {
+		c.undecided("D7", fnName(upd)+"+snapshot-under-lock", upd.Pos(), "the instruction of UpdateIndex that obtains the entry sequence was not identified (see D1)")
 	}
 }
